@@ -256,6 +256,9 @@ def run_gen(prop, tier, tree, record):
         g = gm.grid(tier)
         for p in g[::(9 if tier == "quick" else 3)]:
             cases.append([p, 0])
+        for p in [p for p in g if gm.is_dense(p)][:(4 if tier == "quick" else 12)]:
+            cases.append([p, 0])
+            cases.append([p, 1])
         hs = [0, 1, 2] if tier == "quick" else [0, 1, 2, 3, 4, 5]
         hd, herr = gm.run_hashseeds(tree, cases, hs)
         extra["hashseed_sweep"] = {"cases": len(cases), "hashseeds": hs, "differences": len(hd), "errors": herr}
